@@ -6,7 +6,7 @@ annotations, access given at class creation and/or instantiation) over real fiel
 drives the element side and every field's `r_data` and records `element.r_data` and every field
 port.  Trees are JSON: ["F", width, access, shape_kind, impl] | ["J", junk_kind] |
 ["M", [[key, tree], ...]] | ["A", [tree, ...]]."""
-import json
+import json, collections
 from ..common import mkrnd
 from .. import sim as S
 
@@ -43,6 +43,8 @@ def kname(k):
     if isinstance(k, int) and k >= 1000:
         i, j = divmod(k - 1000, 100)
         return f"k{i}__k{j}" if j < 50 else f"k{i}__{j - 50}"
+    if isinstance(k, int) and k % 7 == 5:
+        return f"_k{k}"              # a private-looking name is a name like any other
     return f"k{k}"
 
 
@@ -341,6 +343,10 @@ def mk_junk(k):
             (L["csr"].Field(L["Stub"], 1, "nc"),)][k]
 
 
+class _ListSub(list):
+    pass
+
+
 def mk_py(t, memo=None):
     """The Python object handed to Register / written as an annotation.  Structurally equal containers are the
     same object (the top-level call starts a new memo)."""
@@ -348,15 +354,25 @@ def mk_py(t, memo=None):
     if t[0] in "MA":
         key = json.dumps(t)
         if key not in memo:
-            memo[key] = ({kname(k): mk_py(x, memo) for k, x in t[1]} if t[0] == "M" else [mk_py(x, memo) for x in t[1]])
+            # every third container is an instance of a subclass of dict / list (OrderedDict, a list subclass)
+            sub = len(key) % 3 == 0
+            if t[0] == "M":
+                d = {kname(k): mk_py(x, memo) for k, x in t[1]}
+                memo[key] = collections.OrderedDict(d) if sub else d
+            else:
+                l = [mk_py(x, memo) for x in t[1]]
+                memo[key] = _ListSub(l) if sub else l
         return memo[key]
     L = lib()
     if t[0] == "F":
         _, w, acc, kind, impl = t
         sh = mk_shape(w, kind)
+        F = L["csr"].Field
+        if isinstance(w, int) and w % 3 == 2:
+            F = type("FieldSub", (L["csr"].Field,), {})      # a convenience subclass of csr.Field
         if impl == "real":
-            return L["csr"].Field(L["action"].R if acc == "r" else L["action"].W, sh)
-        return L["csr"].Field(L["Stub"], sh, acc)
+            return F(L["action"].R if acc == "r" else L["action"].W, sh)
+        return F(L["Stub"], sh, acc)
     if t[0] == "J":
         return mk_junk(t[1])
     if t[0] == "M":
